@@ -15,6 +15,7 @@ mod io_fault;
 mod net;
 mod objs;
 mod prng;
+mod rnsp;
 mod sched;
 mod util;
 
@@ -218,6 +219,7 @@ fn main() {
     if std::env::var("HESIM_CHILD").is_err() && matches!(cmd, "C14" | "C15" | "C16" | "C17" | "C18") {
         std::process::exit(supervise(cmd, tier, seed));
     }
+    std::env::set_var("VERIF_TIER_EFFECTIVE", tier.name());
     println!("VERIF_SEED={} tier={} workers={}", seed, tier.name(), driver::workers());
     let code = match cmd {
         "C14" => c14::run(tier, seed),
